@@ -949,16 +949,18 @@ def apply_slice(src, ed, open_idx, close_idx, table, what, forbidden=()):
     fired = set()
     for (s, e) in split_statements(src, open_idx, close_idx):
         text = " ".join(src.text[toks[s].pos:toks[e - 1].end].split())
-        hits = [(i, row) for i, row in enumerate(table) if row[1] != "keep" and re.match(row[0], text)]
+        hits = [(i, row, re.match(row[0], text)) for i, row in enumerate(table) if row[1] != "keep" and re.match(row[0], text)]
         if len(hits) > 1:
             raise Undecided("slice %s: statement `%s...` matched %d abstraction rows" % (what, text[:60], len(hits)))
         if not hits:
             # default: the statement is KEPT verbatim and goes to the verifier as it is
             res.append(("keep", text[:70]))
             continue
-        i, row = hits[0]
+        i, row, mobj = hits[0]
         fired.add(i)
         kind, repl = row[1]
+        if "\\" in repl:
+            repl = mobj.expand(repl)   # identifiers captured from the real statement are passed through
         assert kind in ("abstract", "abstract_break")
         for k in range(s, e):
             t = toks[k]
